@@ -83,7 +83,7 @@ M = [
 SEEDED_CHECK = {
     "C04-B": "C04", "C11-A": "C11", "C15-B": "C15", "C08-B": "C13", "C03-A": "C03", "C14-A": "C07", "C08-B2": "C13", "C08-B3": "C13", "C16-A3": "C12", "C14-A": "C14",
     "C07-A4": "C11", "C08-A4": "C13", "C11-A4": "C10",
-    "C08-B6": "C13", "C13-A4": "C14",
+    "C08-B6": "C13", "C13-A4": "C14", "C12-A7": "C04",
     "C02-A5": "C06", "C07-B5": "C14", "C08-A5": "C13", "C14-A5": "C18", "C14-B5": "C16", "C19-A5": "C07", "C19-B5": "C16",
 }
 
